@@ -33,7 +33,11 @@ def run(ck):
     sr = PS.fn(D + 'ControlServer::Impl::send_response')
     ck.touch(sr)
     oss = [sr.nodes[i]['d'] for i in sr.walk() if sr.nodes[i]['k'] == 'VarDecl' and 'ostringstream' in sr.nodes[i].get('t', '')]
+    ck.ob('C29.writer', 'C29.writer/header-assembled-then-sent', len(oss) == 1, sr.loc(),
+          'send_response assembles the status line and the field lines in one local ostringstream (and sends that buffer): the header block is never written '
+          'piecemeal to the socket')
     if len(oss) != 1:
+        ck.note('the remaining writer rules of C29 are stated over the header buffer and were not evaluated')
         raise AnalysisBroken('send_response no longer builds the header in one ostringstream')
     ins = stream_insertions(sr, oss[0])
     ck.floor('C29.writer', 'stream insertions in send_response', len(ins), 7)
@@ -443,3 +447,38 @@ def run(ck):
                 why_pay = 'the payload write is also conditioned on `%s`' % bad_c[0]
     ck.ob('C29.sender', 'C29.sender/payload-sent-when-announced', ok_pay, sr.loc(sends[0]) if sends else sr.loc(),
           'send_response writes the payload bytes in a single send_all, conditioned only on has_payload and a non-zero size (%s)' % why_pay)
+
+    # ---- the whole header block leaves in one write: send_response has at most two send_all calls (headers, payload) -----------------------------
+    all_sends = [i for i in sr.walk() if (sr.nodes[i].get('callee') or '').endswith('send_all')]
+    lam_sends = [i for lam in PS.lambdas_of(sr.q) for i in lam.walk() if (lam.nodes[i].get('callee') or '').endswith('send_all')]
+    ck.ob('C29.sender', 'C29.sender/header-block-single-write', len(all_sends) == 2 and not lam_sends, sr.loc(all_sends[0]) if all_sends else sr.loc(),
+          'send_response assembles the status and field lines and sends them with one send_all (found %d send_all call(s), %d inside local lambdas): a client that '
+          'hangs up early cannot leave a response half written' % (len(all_sends), len(lam_sends)))
+
+    # ---- control sockets get no send timeout: a response is written whole however slowly the client reads ---------------------------------------
+    sndto = [(f, i) for f in PS.fns for i in f.walk() if (f.nodes[i].get('callee') or '').lstrip(':') == 'setsockopt' and len(f.call_args(i)) >= 3 and const_value(f, f.call_args(i)[2]) == 21]
+    ck.ob('C29.sender', 'C29.sender/no-send-timeout', not sndto, sndto[0][0].loc(sndto[0][1]) if sndto else '',
+          'the control server sets no SO_SNDTIMEO on client sockets (a large LIST or streamed FETCH must not be cut when the reader pauses)')
+
+    # ---- a request is refused by parse_request only for framing reasons: what the command handlers decide (tokens, limits) is not decided here ------
+    prq = [f for f in PS.fns if f.q.endswith('::parse_request')]
+    if len(prq) != 1:
+        raise AnalysisBroken('ControlServer parse_request not found')
+    prq = prq[0]
+    ck.touch(prq)
+    ck.ob('C29.sender', 'C29.sender/parse_request-framing-only', len(prq.params) == 1 and not any((prq.nodes[i].get('callee') or '').endswith(('constant_time_equal', 'to_upper')) and
+          any(prq.nodes[j]['k'] == 'StringLiteral' and prq.nodes[j].get('s') in ('TOKEN', 'COMMAND') for j in prq.walk()) for i in prq.walk()), prq.loc(),
+          'parse_request takes the socket only and inspects no TOKEN / COMMAND field: authentication errors are produced by the handlers, after the whole '
+          'request (body included) was read, so the error response reaches a client that is still uploading')
+
+    # ---- the CLI prints one row per ENTRIES record: print_list_response keeps rows in a sequence, never in a keyed container --------------------------
+    PM29 = ck.prog(['src/main.cpp'])
+    plr = [f for f in PM29.fns if f.q.endswith('print_list_response')]
+    if len(plr) != 1:
+        raise AnalysisBroken('print_list_response not found in src/main.cpp')
+    plr = plr[0]
+    ck.touch(plr)
+    keyed = [plr.nodes[i] for i in plr.walk() if plr.nodes[i]['k'] == 'VarDecl' and any(x in (plr.nodes[i].get('t') or '') for x in ('std::map<', 'std::set<', 'std::unordered_map<', 'std::unordered_set<', 'std::multimap<'))]
+    ck.ob('C29.list', 'C29.list/cli-rows-not-keyed', not keyed, plr.loc(),
+          'print_list_response collects the rows of ENTRIES in a sequence; it declares no map / set keyed by a column (two chunks sharing that value would collapse into one row)'
+          + ('' if not keyed else ' — local `%s`' % keyed[0].get('n')))
